@@ -304,6 +304,36 @@ def variants_json(obj):
 PAYLOADS = [b"", b"hello jwe", bytes(range(256)) * 2, "unicode é 日本".encode(), b"z" * 3000]
 
 
+def run_object_histories(ctx):
+    """One JsonWebEncryption / JsonWebToken object (made with private header names of its own, a rarely used option) used for one
+    key-management algorithm after another: every token it produces it also decrypts, whatever it handled before."""
+    from authlib.jose import JsonWebToken
+    algs = [("dir", "A128GCM"), ("A128KW", "A128CBC-HS256"), ("RSA-OAEP", "A256GCM"), ("A256GCMKW", "A128GCM"), ("ECDH-ES", "A128GCM"), ("ECDH-ES+A128KW", "A128GCM")]
+    orders = [algs, list(reversed(algs)), algs[3:] + algs[:3], [algs[0], algs[4], algs[1], algs[3], algs[2], algs[5]]]
+    for oi, order in enumerate(orders):
+        for kind in ("jwe", "jwt"):
+            obj = JsonWebEncryption(private_headers={"x-custom"}) if kind == "jwe" else JsonWebToken([a for a, _ in algs] + [e for _, e in algs], private_headers={"x-custom"})
+            for step, (alg, enc) in enumerate(order):
+                kid = E.default_key_for(alg, enc)
+                public = not E.keys()[kid]["kind"] == "oct"
+                case = {"object_history": kind, "order": oi, "step": step, "alg": alg, "enc": enc}
+                ctx.case(case, ("object-history", kind, oi, step), "object-history:%s:%s" % (kind, alg))
+                try:
+                    if kind == "jwe":
+                        tok = obj.serialize_compact({"alg": alg, "enc": enc, "x-custom": "1"}, b"payload %d" % step, E.material(kid, private=False) if public else E.material(kid))
+                        out = bytes(obj.deserialize_compact(tok, E.material(kid))["payload"])
+                        ok = out == b"payload %d" % step
+                    else:
+                        tok = obj.encode({"alg": alg, "enc": enc, "x-custom": "1"}, {"n": step}, E.material(kid, private=False) if public else E.material(kid))
+                        ok = dict(obj.decode(tok, E.material(kid))) == {"n": step}
+                except Exception as e:  # noqa: BLE001
+                    ok = False
+                    case = dict(case, error="%s: %s" % (type(e).__name__, str(e)[:80]))
+                if not ok:
+                    ctx.violation("C03:object-history:%s" % kind, "an object that had handled other algorithms before could not decrypt (to the same plaintext) a token it "
+                                  "had just produced itself", case)
+
+
 def run(ctx):
     ctx.oracles = oracles()
     quick = ctx.tier == "quick"
@@ -314,6 +344,7 @@ def run(ctx):
                 "interoperability with the independent implementation in both directions; distinct_nontrivial = distinct (alg, enc, zip, plaintext)")
     encs = list(E.ENCS)
     E.keys()                     # generated before any worker process is forked: every worker holds the same key material
+    run_object_histories(ctx)
     i = 0
     jobs = []
     for alg in E.ALGS:
